@@ -1,0 +1,29 @@
+//go:build verif
+
+package http
+
+import (
+	"net/http"
+
+	"github.com/jech/storrent/hash"
+	"github.com/jech/storrent/path"
+	"github.com/jech/storrent/tor"
+)
+
+// VerifMux returns a mux with the same routes as Serve.
+func VerifMux() *http.ServeMux {
+	mux := http.NewServeMux()
+	mux.HandleFunc("/{$}", rootHandler)
+	mux.HandleFunc("/{file}", torRootHandler)
+	mux.HandleFunc("/{hash}/{path...}", torHandler)
+	return mux
+}
+
+func VerifCheckLocal(w http.ResponseWriter, r *http.Request) bool { return checkLocal(w, r) }
+func VerifPathUrl(p path.Path) string                             { return pathUrl(p) }
+func VerifM3uEntry(w http.ResponseWriter, host string, h hash.Hash, p path.Path) {
+	m3uentry(w, host, h, p)
+}
+func VerifFileParms(t *tor.Torrent, pth path.Path) (int64, int64, string, error) {
+	return fileParms(t, pth)
+}
